@@ -68,6 +68,30 @@ pub fn check_messages(msgs: &[Msg], printed: &str, files: &dyn Fn(&str) -> Optio
     None
 }
 
+/// validity only (no printed text at hand): every location in the tree names a known file and a range inside it
+/// on character boundaries
+pub fn check_spans(msgs: &[Msg], files: &dyn Fn(&str) -> Option<Vec<u8>>) -> Option<(String, String)> {
+    fn walk(m: &Msg, files: &dyn Fn(&str) -> Option<Vec<u8>>) -> Option<(String, String)> {
+        if let Some(h) = m.handle {
+            let Some(name) = &m.file else {
+                return Some(("span-names-unknown-file".into(), format!("message `{}` carries file handle {} which the file server does not know", m.descr, h)));
+            };
+            if let Some((a, b)) = m.loc {
+                let raw = files(name).unwrap_or_default();
+                let text = String::from_utf8_lossy(&raw).to_string().into_bytes();
+                if a > b || b > text.len() {
+                    return Some(("span-out-of-range".into(), format!("message `{}`: range {}..{} in `{}` of {} bytes", m.descr, a, b, name, text.len())));
+                }
+                if line_col(&text, a).is_none() || line_col(&text, b).is_none() {
+                    return Some(("span-not-on-char-boundary".into(), format!("message `{}`: range {}..{} in `{}` is not on character boundaries", m.descr, a, b, name)));
+                }
+            }
+        }
+        m.inner.iter().find_map(|i| walk(i, files))
+    }
+    msgs.iter().find_map(|m| walk(m, files))
+}
+
 fn huge() -> E {
     E::Lit { text: "0x1_0000_0000_0000_0000_0000".into(), v: pow2(80), size: Some(84) }
 }
@@ -191,7 +215,25 @@ impl Property for C13 {
                 } else {
                     // v2: a built-in function that rejects an argument written on the NEXT line of the call:
                     // the error belongs to the argument's line
-                    if crate::engine::gen_version() >= 2 && t.chance(1, 6) {
+                    if crate::engine::gen_version() >= 2 && t.chance(1, 8) {
+                        // v2: an asm-block rule defined at the very END of the file, called with an operand that is
+                        // much longer than its placeholder and out of range for the inner instruction
+                        let n = t.urange(20, 120);
+                        let acc = if t.flip() { "\u{e9}" } else { "e" };
+                        prog.items[at] = Item::Raw(format!("zqmac 0x1{}", "0".repeat(n)));
+                        prog.items.push(Item::Raw(format!("#ruledef zqm\n{{\n    zqemit {{x: u8}} => 0x77 @ x\n    zqmac {{x}} => asm {{ zqemit {{x}} }} ; {}\n}}", acc)));
+                        kind = "asm-block-argument-out-of-range";
+                    } else if crate::engine::gen_version() >= 2 && t.chance(1, 7) {
+                        // v2: a rule whose production is a multi-line asm block with one faulty `{...}` substitution;
+                        // the message that names the cause belongs to that line of the block
+                        let bad = *t.pick(&["zqemit {zqx}", "zqemit {}", "zqemit 1 + {zqy}"]);
+                        let (l1, l2) = if t.flip() { ("zqemit {x}", bad) } else { (bad, "zqemit {x}") };
+                        let off = if l1 == bad { 5 } else { 6 };
+                        let comment = if t.flip() { " ; \u{e9}\u{e9}" } else { "" };
+                        prog.items[at] = Item::Raw(format!("#ruledef zqm\n{{\n    zqemit {{x: u8}} => 0x77 @ x\n    zqmac {{x}} => asm{}\n    {{\n        {}\n        {}\n    }}\n}}\nzqmac 1", comment, l1, l2));
+                        fault_line_offset = off;
+                        kind = "asm-block-faulty-substitution";
+                    } else if crate::engine::gen_version() >= 2 && t.chance(1, 6) {
                         let txt = *t.pick(&["#d8 strlen(\n    5)", "#d8 le(\n    5)", "#d16 utf16le(\n    0x41)", "#d8 sizeof(\n    7)", "#d8 1 + strlen(\n    0x2)"]);
                         prog.items[at] = Item::Raw(txt.to_string());
                         fault_line_offset = 1;
@@ -243,7 +285,7 @@ impl Property for C13 {
         }
         ctx.label(format!("fault:{}", kind));
         // the language rules must reject exactly that item (malformed directives are not modelled: syntax errors)
-        if !kind.starts_with("malformed-directive") && kind != "builtin-rejects-argument-on-next-line" {
+        if !kind.starts_with("malformed-directive") && kind != "builtin-rejects-argument-on-next-line" && kind != "asm-block-faulty-substitution" && kind != "asm-block-argument-out-of-range" {
             match refasm::assemble(&prog) {
                 RefResult::Reject { item, .. } if item == fault_item => {}
                 _ => {
@@ -304,7 +346,7 @@ impl Property for C13 {
             }
         };
         let mut first = msgs.iter().find(|m| m.kind == 'E').unwrap();
-        if kind == "builtin-rejects-argument-on-next-line" {
+        if kind == "builtin-rejects-argument-on-next-line" || kind == "asm-block-faulty-substitution" {
             // the outer message covers the whole two-line element; the message that names the cause is the innermost one
             while let Some(i) = first.inner.first() {
                 first = i;
@@ -325,6 +367,13 @@ impl Property for C13 {
                 format!("B|{}|first-error-elsewhere", kind),
                 format!("fault on {}:{} (`{}`), first error `{}` is located at {:?}", want.0, want.1, loc.text, first.descr, place),
             );
+        }
+        // every location of the whole message tree is valid (as in part A)
+        let lookup = |n: &str| r.files.iter().find(|x| x.0 == n).map(|x| x.1.clone());
+        if let Some((c, d)) = check_spans(msgs, &lookup) {
+            ctx.want_render = true;
+            ctx.render(render);
+            return Verdict::fail(format!("B|{}|{}", kind, c), d);
         }
         Verdict::Pass
     }
